@@ -39,7 +39,15 @@ PROBE_SETS = [
 ]
 
 # extra documents aimed at hash-order sensitivity: several undeclared required names, equally titled objects under every composition keyword
+def _part(n, title="Part"):
+    return {"type": "object", "title": title, "properties": {"k%d" % n: {"type": "integer"}}}
+
+
 EXTRA_DOCS = [
+    # several schema-valued dependencies; same-titled, different objects under each of the sub-schema keywords of ONE schema
+    ("several-schema-dependencies", {"type": "object", "title": "Deps", "dependencies": {"zeta": _part(1, "Extra"), "alpha": _part(2, "Extra"), "mid": {"required": ["q"]}, "beta": _part(3, "Extra"), "omega": True, "list": ["zeta"]}}, None),
+    ("same-title-under-every-subschema-keyword", {"type": "object", "title": "Holder", "properties": {"p": _part(1)}, "patternProperties": {"^x": _part(2)}, "propertyNames": {"anyOf": [_part(3), {"type": "string"}]}, "dependencies": {"d": _part(4)}, "additionalProperties": _part(5), "items": _part(6), "contains": _part(7), "additionalItems": _part(8)}, None),
+    ("same-title-untyped-every-keyword", {"items": [_part(1), _part(2)], "additionalItems": _part(3), "contains": _part(4), "properties": {"a": _part(5), "b": _part(6)}, "patternProperties": {"^z": _part(7), "^y": _part(8)}, "dependencies": {"u": _part(9), "t": _part(10)}, "propertyNames": {"not": _part(11)}}, None),
     # compositions whose members are all trivial, with and without a default; and compositions with one trivial member
     ("trivial-compositions-with-defaults", {"type": "object", "title": "Triv", "properties": {"a": {"allOf": [{}, True], "default": {"k": 1}}, "b": {"anyOf": [{}], "default": 0}, "c": {"oneOf": [True], "default": "s"}, "d": {"not": False, "default": []}}}, None),
     ("compositions-with-one-trivial-member", {"type": "object", "title": "Semi", "properties": {"a": {"anyOf": [True]}, "b": {"allOf": [{"type": "string"}, {}]}, "c": {"oneOf": [{}, {"type": "null"}]}, "d": {"anyOf": [{}, {"type": "integer"}], "allOf": [True]}}}, None),
